@@ -376,13 +376,18 @@ def emit_script(ss, real=False):
                       '    ' + rec("'readerr'", repr(x))]
         elif k == 'sub':
             d = s[1]
+            # the includer keeps what it received and MUTATES it afterwards (a key of its own): what a submodule exports
+            # reaches exactly this caller, so the mutation must never show up in what any other inclusion returns
+            mut = '_c19_got[%r] = %r' % ('zz_mutated_by_includer_%d' % len(L), 'leak')
             if real:
-                L += ['try:', '    ' + rec("'sub'", repr(d), '%s(submodule(%r).items())' % (B('list'), d)),
+                L += ['try:', '    _c19_got = submodule(%r)' % d,
+                      '    ' + rec("'sub'", repr(d), '%s(_c19_got.items())' % B('list')), '    ' + mut,
                       'except %s:' % B('Exception'),
                       '    ' + rec("'suberr'", repr(d), "%s(%s['__import__']('sys').exc_info()[1]).__name__" % (
                           B('type'), '__builtins__'))]
             else:
-                L += ['try:', '    ' + rec("'sub'", repr(d), 'submodule(%r)' % d), 'except %s:' % B('Exception'),
+                L += ['try:', '    _c19_got = submodule(%r)' % d, '    ' + rec("'sub'", repr(d), '_c19_got'), '    ' + mut,
+                      'except %s:' % B('Exception'),
                       '    ' + rec("'suberr'", repr(d))]
         elif k == 'export':
             L.append('export(%s=%r)' % (s[1], s[2]))
